@@ -122,3 +122,17 @@ PROPS["C12"] = simple(
                "label must return that label's target; numbers outside 1..N must open nothing (and not panic); the sequence of labels and numbers must be the same at every width. Sampled.",
     level_note="Trusted: the generator's label/target bookkeeping (kit/gen) and the token reader in harness/verifchk/docs. Only well-nested markup with a target on every link-bearing element is generated; nested anchors (invalid HTML) are not.",
 )
+
+PROPS["C15"] = simple(
+    "verifchk/c15", "TestVerifC15", "exploration",
+    "documents from the C12 grammar in HTML, Markdown, gemtext and plain text (long unbreakable words, pre blocks, unknown tags/tables, <hr>, nesting depth <= 4), "
+    "each rendered through one Markup instance along a PRNG width sequence of length 2..8 drawn from 1..200 that includes immediate repeats, returns to earlier "
+    "widths and 80 (the width the constructor caches); every result is compared with a fresh instance rendered once at that width. Widths are kept within 4 "
+    "columns of the deepest indentation (beyond that the rendering cost is C06's subject). Non-trivial: every case; distinct = (markup, width sequence, text).",
+    shards=dict(quick=8, thorough=16),
+    floor=dict(evaluations=3000, distinct=3000, renders_checked=10000),
+    technique="runtime monitor: visible-width scan of every rendered line + differential against a fresh instance (history independence)",
+    level_text="Every Render result is scanned with the terminal model (no line may exceed the width in visible characters) and compared byte for byte with the "
+               "rendering of a freshly constructed markup of the same text at the same width, after arbitrary histories of other widths. Sampled.",
+    level_note="Trusted: kit/term line measurement (visible character = rune, as in the code base). The fresh-instance differential uses the code under test as its own reference, so it only detects history dependence, not a wrong rendering.",
+)
